@@ -77,14 +77,14 @@ CaptureObj(b, lo, hi, name, cp) ==
   LET nm == IF name = <<>> THEN Null ELSE Str(name) IN
   IF lo < 0 THEN Obj(<< <<kLength, Num(0)>>, <<kName, nm>>, <<kOffset, Num(-1)>>, <<kString, Null>> >>)
   ELSE Obj(<< <<kLength, Num(PosOf(b, hi, cp) - PosOf(b, lo, cp))>>, <<kName, nm>>,
-              <<kOffset, Num(PosOf(b, lo, cp))>>, <<kString, Str(Utf8Dec(ByteSlice(b, lo, hi)))>> >>)
+              <<kOffset, Num(PosOf(b, lo, cp))>>, <<kString, Str(DecSlice(b, lo, hi))>> >>)
 
 MatchObjM(b, x, names, cp) ==
   LET ng == (Len(x) - 2) \div 2 IN
   Obj(<< <<kCaptures, Arr([j \in 1..ng |-> CaptureObj(b, x[2 * j + 1], x[2 * j + 2], names[j], cp)])>>,
          <<kLength, Num(PosOf(b, x[2], cp) - PosOf(b, x[1], cp))>>,
          <<kOffset, Num(PosOf(b, x[1], cp))>>,
-         <<kString, Str(Utf8Dec(ByteSlice(b, x[1], x[2])))>> >>)
+         <<kString, Str(DecSlice(b, x[1], x[2]))>> >>)
 MatchObj(b, x, names) == MatchObjM(b, x, names, OffsetsInCodePoints)
 
 \* MatchObjects(subject code points, raw byte matches, names)
@@ -127,48 +127,51 @@ ReMatch(v, re, flags, P) ==
 \* def test($re; $flags): _match($re; $flags; true);
 ReTest(v, re, flags, P) == FuncMatch(v, re, flags, True, P)
 
+\* match($re; $flags + "g")
+MatchG(v, re, flags, P) ==
+  LET f == PlusG(flags) IN IF Failed(f) THEN f ELSE ReMatch(v, re, f.o[1], P)
+
+\* The reductions below take the stream m = [o, e] of match objects they consume; Re<Name> feeds them.
+
 \* def capture($re; $flags): match($re; $flags) | .captures | _captures;
-ReCapture(v, re, flags, P) ==
-  LET m == ReMatch(v, re, flags, P) IN
+CaptureOf(m) ==
   IF Failed(m) THEN m ELSE VOk([i \in 1..Len(m.o) |-> FuncCaptures(ObjGet(m.o[i].o, kCaptures)).o[1]])
+ReCapture(v, re, flags, P) == CaptureOf(ReMatch(v, re, flags, P))
 
 \* def scan($re; $flags): match($re; $flags + "g") | if .captures == [] then .string else [.captures[].string] end;
-ReScan(v, re, flags, P) ==
-  LET f == PlusG(flags) IN
-  IF Failed(f) THEN f
-  ELSE LET m == ReMatch(v, re, f.o[1], P) IN
-       IF Failed(m) THEN m
-       ELSE VOk([i \in 1..Len(m.o) |->
-                   LET caps == ObjGet(m.o[i].o, kCaptures).a IN
-                   IF Len(caps) = 0 THEN ObjGet(m.o[i].o, kString)
-                   ELSE Arr([j \in 1..Len(caps) |-> ObjGet(caps[j].o, kString)])])
+ScanOf(m) ==
+  IF Failed(m) THEN m
+  ELSE VOk([i \in 1..Len(m.o) |->
+              LET caps == ObjGet(m.o[i].o, kCaptures).a IN
+              IF Len(caps) = 0 THEN ObjGet(m.o[i].o, kString)
+              ELSE Arr([j \in 1..Len(caps) |-> ObjGet(caps[j].o, kString)])])
+ReScan(v, re, flags, P) == ScanOf(MatchG(v, re, flags, P))
 
 \* def splits($re; $flags):
 \*   .[foreach (match($re; $flags + "g"), null) as {$offset, $length}
 \*       (null; {start: .next, end: $offset, next: $offset + $length})];
 \* one step per global match plus one for the trailing null (whose $offset and $length are null):
 \* the piece from the end of the previous match (.next, null at first) to the start of this one
-ReSplits(v, re, flags, P) ==
-  LET f == PlusG(flags) IN
-  IF Failed(f) THEN f
-  ELSE LET m == ReMatch(v, re, f.o[1], P) IN
-       IF Failed(m) THEN m
-       ELSE LET n == Len(m.o)
-                off(i) == IF i <= n THEN ObjGet(m.o[i].o, kOffset) ELSE Null
-                len(i) == IF i <= n THEN ObjGet(m.o[i].o, kLength) ELSE Null
-                RECURSIVE Step(_, _)
-                Step(i, next) ==
-                  IF i > n + 1 THEN VOk(<<>>)
-                  ELSE LET piece == SliceOf(v, off(i), next)              \* .[{start: .next, end: $offset}]
-                           nx == Add(off(i), len(i))
-                       IN IF Failed(piece) THEN piece
-                          ELSE IF Failed(nx) THEN [o |-> piece.o, e |-> nx.e]
-                          ELSE LET rest == Step(i + 1, nx.o[1]) IN [o |-> piece.o \o rest.o, e |-> rest.e]
-            IN Step(1, Null)
+SplitsOf(v, m) ==
+  IF Failed(m) THEN m
+  ELSE LET n == Len(m.o)
+           off(i) == IF i <= n THEN ObjGet(m.o[i].o, kOffset) ELSE Null
+           len(i) == IF i <= n THEN ObjGet(m.o[i].o, kLength) ELSE Null
+           RECURSIVE Step(_, _)
+           Step(i, next) ==
+             IF i > n + 1 THEN VOk(<<>>)
+             ELSE LET piece == SliceOf(v, off(i), next)              \* .[{start: .next, end: $offset}]
+                      nx == Add(off(i), len(i))
+                  IN IF Failed(piece) THEN piece
+                     ELSE IF Failed(nx) THEN [o |-> piece.o, e |-> nx.e]
+                     ELSE LET rest == Step(i + 1, nx.o[1]) IN [o |-> piece.o \o rest.o, e |-> rest.e]
+       IN Step(1, Null)
+ReSplits(v, re, flags, P) == SplitsOf(v, MatchG(v, re, flags, P))
 
 \* def split($re; $flags): [splits($re; $flags)];
-ReSplit(v, re, flags, P) ==
-  LET s == ReSplits(v, re, flags, P) IN IF Failed(s) THEN StreamErr(s.e) ELSE V1(Arr(s.o))
+SplitOf(v, m) ==
+  LET s == SplitsOf(v, m) IN IF Failed(s) THEN StreamErr(s.e) ELSE V1(Arr(s.o))
+ReSplit(v, re, flags, P) == SplitOf(v, MatchG(v, re, flags, P))
 
 \* def sub($re; str; $flags):
 \*   reduce match($re; $flags) as {$offset, $length, $captures}
@@ -178,8 +181,7 @@ ReSplit(v, re, flags, P) ==
 \*       .next = $offset + $length) | .r[] + .s[.next:] // .s;
 \* StrF(c) = the stream `str` produces on the captures object c: [o, e].
 \* State of the outer reduce: r (one partial result per output position of str) and next.
-ReSub(v, re, StrF(_), flags, P) ==
-  LET m == ReMatch(v, re, flags, P) IN
+SubOf(v, m, StrF(_)) ==
   IF Failed(m) THEN m
   ELSE
   LET n == Len(m.o)
@@ -218,10 +220,10 @@ ReSub(v, re, StrF(_), flags, P) ==
                                    [o |-> (IF Truthy(y.o[1]) THEN <<y.o[1]>> ELSE <<>>) \o rest.o, e |-> rest.e]
               em == Emit(1)
           IN IF Failed(em) \/ Len(em.o) > 0 THEN em ELSE V1(v)            \* ... // .s
+ReSub(v, re, StrF(_), flags, P) == SubOf(v, ReMatch(v, re, flags, P), StrF)
 
 \* def gsub($re; str; $flags): sub($re; str; $flags + "g");
-ReGsub(v, re, StrF(_), flags, P) ==
-  LET f == PlusG(flags) IN IF Failed(f) THEN f ELSE ReSub(v, re, StrF, f.o[1], P)
+ReGsub(v, re, StrF(_), flags, P) == SubOf(v, MatchG(v, re, flags, P), StrF)
 
 -----------------------------------------------------------------------------
 (* Code-point positions: func.go funcLength / explode / indexString /       *)
